@@ -66,14 +66,15 @@ Enc64(bytes) ==
 IsAscii(s) == \A i \in 1 .. Len(s) : Code(s[i]) < 1000
 ToBase64(s) == Enc64([i \in 1 .. Len(s) |-> Code(s[i])])
 
-(* dates written YYYY-MM-DD[...] *)
-IsDateText(c) == Len(c) >= 10 /\ AllDigits(SubSeq(c, 1, 4)) /\ c[5] = "-" /\ AllDigits(SubSeq(c, 6, 7)) /\ c[8] = "-"
-                 /\ AllDigits(SubSeq(c, 9, 10))
-                 /\ LET m == NatOfDigits(SubSeq(c, 6, 7)) d == NatOfDigits(SubSeq(c, 9, 10)) y == NatOfDigits(SubSeq(c, 1, 4))
-                    IN y >= 1970 /\ y <= 2037 /\ m >= 1 /\ m <= 12 /\ d >= 1 /\ d <= DaysInMonth(y, m)
-DateY(c) == NatOfDigits(SubSeq(c, 1, 4))
-DateM(c) == NatOfDigits(SubSeq(c, 6, 7))
-DateD(c) == NatOfDigits(SubSeq(c, 9, 10))
+(* dates written YYYY-MM-DD, anywhere in the text (`year(name)` on report-2023-12-31.txt): the first place where the shape occurs *)
+ShapeAt(c, i) == i + 9 <= Len(c) /\ AllDigits(SubSeq(c, i, i + 3)) /\ c[i + 4] = "-" /\ AllDigits(SubSeq(c, i + 5, i + 6)) /\ c[i + 7] = "-"
+                 /\ AllDigits(SubSeq(c, i + 8, i + 9))
+DatePos(c) == IF \E i \in 1 .. Len(c) : ShapeAt(c, i) THEN CHOOSE i \in 1 .. Len(c) : ShapeAt(c, i) /\ \A j \in 1 .. i - 1 : ~ShapeAt(c, j) ELSE 0
+DateY(c) == NatOfDigits(SubSeq(c, DatePos(c), DatePos(c) + 3))
+DateM(c) == NatOfDigits(SubSeq(c, DatePos(c) + 5, DatePos(c) + 6))
+DateD(c) == NatOfDigits(SubSeq(c, DatePos(c) + 8, DatePos(c) + 9))
+IsDateText(c) == DatePos(c) > 0 /\ DateY(c) >= 1970 /\ DateY(c) <= 2037 /\ DateM(c) >= 1 /\ DateM(c) <= 12
+                 /\ DateD(c) >= 1 /\ DateD(c) <= DaysInMonth(DateY(c), DateM(c))
 Dow(c) == ((DaysFromCivil(DateY(c), DateM(c), DateD(c)) + 4) % 7) + 1       \* 1 = Sunday
 
 Min2(a, b) == IF a < b THEN a ELSE b
